@@ -47,7 +47,10 @@ def corr(ctx, binary, n):
 def hunt(ctx, binary, bad):
     """Search for an input on which the property itself fails on the implementation."""
     rp = os.path.join(ctx.dir, "hunt_in.json")
-    json.dump({"cases": bad[:60]}, open(rp, "w"))
+    corpus = []
+    if os.path.exists(CORPUS):
+        corpus = [json.loads(l) for l in open(CORPUS) if l.strip() and not l.startswith("#")]
+    json.dump({"cases": corpus + bad[:60]}, open(rp, "w"))
     n = 4000 if ctx.tier == "quick" else 60000
     rc, out = vlib.sh([binary, "--extra", "hunt", "--replay", rp, "--n", str(n), "--seed", str(ctx.seed),
                        "--out", ctx.dir, "--tier", ctx.tier], timeout=1500, env=vlib.go_env())
@@ -60,15 +63,38 @@ def hunt(ctx, binary, bad):
     return None
 
 
+def _prefix(msk):
+    seen_false = False
+    for v in msk or []:
+        if not v:
+            seen_false = True
+        elif seen_false:
+            return False
+    return True
+
+
+def all_known():
+    fs = list(vlib.known_findings("C04"))
+    pp = os.path.join(vlib.ROOT, "corpus/C04/known_findings_proposed.json")
+    if os.path.exists(pp):
+        ids = {f.get("id") for f in fs}
+        fs += [f for f in json.load(open(pp)).get("findings", []) if f.get("id") not in ids]
+    return fs
+
+
 def known(failure, case):
-    """Match a hunt failure narrowly (site + shape of the witness) against known_findings.json."""
-    for f in vlib.known_findings("C04"):
+    """Match a hunt failure narrowly (call site + option combination + failure kind) against the known findings."""
+    for f in all_known():
         w = f.get("match", {})
-        if w.get("kind") and w["kind"] != case.get("kind"):
+        if w.get("kind") != case.get("kind"):
             continue
         if w.get("failure_contains") and w["failure_contains"] not in failure:
             continue
         if "mode" in w and w["mode"] != case.get("mode", 0):
+            continue
+        if w.get("insitua") and not case.get("insitua"):
+            continue
+        if w.get("nonprefix_mask") and _prefix(case.get("msk")):
             continue
         return f
     return None
